@@ -56,6 +56,7 @@ ASSUMPTIONS = [
 ]
 
 STEM = "_spikeglx_ephysData_g0_t0.imec0"
+UUID = ".5f1e8a60-7c1d-4b6e-9a55-0b7f0c3d2e19"     # archive naming: a UUID between the band token and the extension
 LABEL = "probe00"
 EVENT_METHODS = ("check_NP24", "compress_NP24", "compress_NP21", "delete_NP24", "_writemetadata_ap",
                  "_writemetadata_lf", "_closefiles", "_prepare_files_NP24", "_prepare_files_NP21")
@@ -86,6 +87,18 @@ def instrument():
 
 
 def do_step(step, root):
+    if step.get("prelude_ap"):
+        # earlier in the same process: another recording of the SAME probe (same serial number, same imro file name) with
+        # another site-to-shank layout was converted (a loop over sessions); not a fault site, not judged
+        was = fsseam.SIM.active
+        fsseam.SIM.active = False
+        try:
+            pc = neuropixel.NP2Converter(Path(step["prelude_ap"]), post_check=False, delete_original=False, compress=False)
+            pc.init_params(nwindow=step["nwindow"])
+            pc.process(overwrite=True)
+            pc.sr.close()
+        finally:
+            fsseam.SIM.active = was
     ap = Path(root) / step["ap_file"]
     conv = neuropixel.NP2Converter(ap, post_check=step["post_check"], delete_original=step["delete_original"],
                                    compress=step["compress"])
@@ -167,7 +180,13 @@ def _gen_world(r):
     if r.random() < 0.25:      # length an exact number of window steps (+-1)
         k = r.randrange(0, 4)
         w["ns"] = max(1000, k * (w["nwindow"] - 576) + w["nwindow"] + r.choice([-1, 0, 0, 1]))
-    if r.random() < 0.15:      # length an exact number of verification blocks (the post-check reads blocks of nwindow samples without overlap) +-1
+    if r.random() < 0.04:      # a few seconds of recording on few channels (thresholds expressed in seconds)
+        w["ns"] = r.choice([60001, 66000, 90003])
+        w["nap"] = 4
+        w["nwindow"] = r.choice([3600, 6000])
+        if w.get("shank_of") is not None:
+            w["shank_of"] = world.gen_shank_of(r, 4, len(set(w["shank_of"])) if len(set(w["shank_of"])) > 1 else 1)
+    elif r.random() < 0.15:      # length an exact number of verification blocks (the post-check reads blocks of nwindow samples without overlap) +-1
         w["ns"] = max(1000, min(6001, r.randrange(1, 5) * w["nwindow"] + r.choice([-1, 0, 1, 1])))
     w["extra"] = r.choice(["", "", "_x"])        # suffix of the shank folder names (init_params(extra=...))
     w["orig_chunk"] = r.choice([0.02, 0.05, 1.0])
@@ -177,6 +196,8 @@ def _gen_world(r):
     w["meta_claim"] = r.choice([None] * 9 + ["fewer", "more"]) if kind != "split" else None
     # a STALE compressed copy (of an earlier transfer: same shape, other content) sits next to the uncompressed original:
     # whatever the converter does with it, the original handed in must stay recoverable
+    w["prelude_conv"] = r.random() < 0.12   # an earlier conversion in the same process: same probe (serial), another site-to-shank layout
+    w["uuid_names"] = r.random() < 0.12     # *.imec0.ap.<uuid>.bin, as files are named on the archive
     w["extremes"] = r.random() < 0.3      # corners of int16 and runs of zeros in the content
     w["stale_cbin"] = kind in ("NP21", "NP24", "NP24_1sh") and w["form"] == "bin" and w["meta_claim"] is None and r.random() < 0.15
     return w
@@ -243,10 +264,14 @@ class World:
         elif w.get("meta_claim") == "more":
             claimed = w["ns"] + max(1, w["ns"] // 4)
         world.write_recording(self.pdir, STEM, fixture, self.O, shank_of=w["shank_of"], claimed_ns=claimed)
-        self.bin = self.pdir / f"{STEM}.ap.bin"
-        self.cbin = self.pdir / f"{STEM}.ap.cbin"
-        self.ch = self.pdir / f"{STEM}.ap.ch"
-        self.meta = self.pdir / f"{STEM}.ap.meta"
+        self.U = UUID if (w.get("uuid_names") and kind != "split") else ""
+        self.bin = self.pdir / f"{STEM}.ap{self.U}.bin"
+        self.cbin = self.pdir / f"{STEM}.ap{self.U}.cbin"
+        self.ch = self.pdir / f"{STEM}.ap{self.U}.ch"
+        self.meta = self.pdir / f"{STEM}.ap{self.U}.meta"
+        if self.U:
+            for ext in ("bin", "meta"):
+                (self.pdir / f"{STEM}.ap.{ext}").rename(self.pdir / f"{STEM}.ap{self.U}.{ext}")
         if kind == "split":
             self._make_split()
         if w["form"] == "cbin":
@@ -264,6 +289,12 @@ class World:
             st_ = self.cbin.stat()
             _os.utime(self.bin, ns=(st_.st_atime_ns, st_.st_mtime_ns - 5_000_000_000))      # the re-transferred .bin is not newer than the stale copy
         self.meta_sha = sha1_file(self.meta)
+        self.prelude_ap = None
+        if w.get("prelude_conv") and kind in ("NP24", "NP24_1sh"):
+            so = list(w["shank_of"])
+            other = [(x + 1) % 4 for x in so] if len(set(so)) > 1 else [i % 4 for i in range(len(so))]
+            Dp = world.make_data(w["data_seed"] ^ 0x7171, 1200, w["nap"])
+            self.prelude_ap = world.write_recording(base / "prelude" / LABEL, STEM, fixture, Dp, shank_of=other)
         # expected shanks: {shank number: channel indices (ascending) + sync}
         self.shanks = {}
         if kind in ("NP24", "NP24_1sh"):
@@ -324,8 +355,8 @@ class World:
     def _load_ap(self, d, want_cols):
         """AP data of a shank folder by the simulator's own means (.bin bytes or decoded .cbin)."""
         outs = []
-        b = d / f"{STEM}.ap.bin"
-        c = d / f"{STEM}.ap.cbin"
+        b = d / f"{STEM}.ap{self.U}.bin"
+        c = d / f"{STEM}.ap{self.U}.cbin"
         if b.exists() and b.stat().st_size == self.w["ns"] * want_cols * 2:
             outs.append(np.fromfile(b, dtype=np.int16).reshape(-1, want_cols))
         if c.exists():
@@ -366,9 +397,9 @@ class World:
             if p.is_file():
                 rel = os.path.relpath(p, self.root)
                 if rel.startswith(LABEL + "/") and ".ap." in rel and not rel.endswith((".cbin_tmp",)):
-                    if rel.split("/")[1].replace(STEM, "") in (".ap.bin", ".ap.meta", ".ap.cbin", ".ap.ch"):
+                    if rel.split("/")[1].replace(STEM, "").replace(self.U, "") in (".ap.bin", ".ap.meta", ".ap.cbin", ".ap.ch"):
                         continue
-                sig.append(rel.replace(STEM, "") + ("" if p.stat().st_size else ":empty"))
+                sig.append(rel.replace(STEM, "").replace(self.U, "") + ("" if p.stat().st_size else ":empty"))
         return sig
 
 
@@ -452,6 +483,9 @@ def _exec_step(W, st, model, log, stats, bump, seed):
     st["ap_file"] = os.path.relpath(orig, W.root)
     st["nwindow"] = W.w["nwindow"]
     st["extra"] = W.w.get("extra") or ""
+    st["prelude_ap"] = str(W.prelude_ap) if W.prelude_ap else None
+    if W.prelude_ap:
+        bump("probes", "earlier_conversion_same_probe_other_layout_same_process")
     pool_seed = seed % 1000
     st.pop("nshank", None)
     if st.get("nshank_frac") is not None and kind == "NP24" and len(W.shanks) >= 2:
@@ -476,7 +510,7 @@ def _exec_step(W, st, model, log, stats, bump, seed):
         dr = session.dry_run(W.root, do_step, st, W.cfg, pool_seed, pre=instrument)
         fr = rng_of(fault["rseed"])
         only = fault.get("only")
-        elig = (lambda lab: label_class(lab) == only) if only else eligible
+        elig = (lambda lab: (label_class(lab).replace(W.U, "") if W.U else label_class(lab)) == only) if only else eligible
         nop = fault.get("no_persistent")
         fault = session.place_fault(fr, dr["events"], elig, kinds=tuple(fault.get("kinds") or ("kill", "kill", "io_error", "torn", "corrupt", "interrupt", "short", "short")),
                                     occ=fault.get("occ"), tear=fault.get("tear"))
@@ -645,8 +679,8 @@ def _check_outputs(W, st, sig0, ctx):
             if kind == "NP21" and band == "ap":
                 continue
             ext = ".cbin" if st["compress"] else ".bin"
-            f = d / f"{STEM}.{band}{ext}"
-            m = d / f"{STEM}.{band}.meta"
+            f = d / f"{STEM}.{band}{W.U}{ext}"
+            m = d / f"{STEM}.{band}{W.U}.meta"
             rel = os.path.relpath(f, W.root)
             if not f.exists() or not m.exists() or (st["compress"] and not f.with_suffix(".ch").exists()):
                 raise Violation("C04.S4", f"{sig0}:missing-output:{band}", f"{rel} (or its .meta/.ch) missing after a run that returned 1 | " + ctx)
@@ -706,6 +740,13 @@ def _verification_sweep(tier, verif_seed):
                 st = {"op": "process", "overwrite": False, "post_check": True, "compress": False, "delete_original": True,
                       "fault": {"auto": True, "rseed": s % 100000, "kinds": ["corrupt"], "only": "tofile:.imec0.ap.bin", "occ": occ, "tear": tear}}
                 yield {"property": PROP, "seed": s, "world": ww, "steps": [st], "closing": False, "sweep_of": 100 + b}
+        # a recording of a few seconds (few channels keep it small): thresholds expressed in seconds, not in windows
+        for ns_big in ((66001,) if tier == "quick" else (66001, 60000, 127013)):
+            for occ, tear in ((-4, 1.0), (-4, 0.5)):
+                ww = dict(w, ns=ns_big, nap=4, nwindow=6000, shank_of=[0, 1, 2, 3])
+                st = {"op": "process", "overwrite": False, "post_check": True, "compress": False, "delete_original": True,
+                      "fault": {"auto": True, "rseed": s % 100000, "kinds": ["corrupt"], "only": "tofile:.imec0.ap.bin", "occ": occ, "tear": tear}}
+                yield {"property": PROP, "seed": s, "world": ww, "steps": [st], "closing": False, "sweep_of": 200 + b}
 
 
 def sweep_plans(tier, verif_seed):
@@ -783,7 +824,7 @@ def shrink_candidates(plan):
                     c["steps"][i]["fault"] = {"auto": True, "rseed": 7}
                 yield c
     w = plan["world"]
-    for key, val in (("stale_cbin", False), ("meta_claim", None), ("ns", 1000), ("nap", 4), ("form", "bin")):
+    for key, val in (("prelude_conv", False), ("uuid_names", False), ("stale_cbin", False), ("meta_claim", None), ("ns", 1000), ("nap", 4), ("form", "bin")):
         if w.get(key) != val:
             c = dict(plan)
             c["world"] = dict(w)
